@@ -268,8 +268,56 @@ def lane_cases(rng, n):
     return out
 
 
-def run_args(method, mode, threads=None, no_rejects=False):
+def spec_args(sp):
+    return run_args(sp['method'], sp['mode'], sp.get('threads'), sp['nr'], sp.get('fmt', 0))
+
+
+def rec_rg(r, fmt=0):
+    """read group id the tagger must assign (get_read_group_from_read): Fc.La.SM, or Fc.La.LY for -read_group_format 1;
+    whatever RG tag the input record already carries is irrelevant"""
+    if r.get('xrg'):
+        fc, la, sm = r['xrg'].split('.')
+        return r['xrg'] if fmt == 0 else '%s.%s.%s' % (fc, la, sm.rsplit('_', 1)[0])
+    t = r['tags']
+    return '%s.%s.%s' % (t.get('Fc', 'NONE'), t.get('La', 'NONE'), t.get('SM', 'NONE') if fmt == 0 else t.get('LY', 'NONE'))
+
+
+def large_case(rng, nsites):
+    """more than 10,000 valid fragments on one contig, so that the periodic ejection check of MoleculeIterator
+    (check_eject_every = 10,000; not reachable from the command line) runs inside the tagger: every site holds a short
+    and a long molecule of the same cell (different UMIs), so at the check some hash group is half ejected"""
+    step = rng.choice([200, 250, 300])
+    lg = rng.choice([460, 560, 660])
+    contigs = [['big1', 1000 + nsites * step + 3000], ['k2', 50000]]
+    recs = []
+
+    def pair(name, ci, p1, gap, cell, umi):
+        bc = 'ACGTACGT'
+        tg = {'SM': cell, 'BC': bc, 'RX': umi, 'MI': bc + umi, 'LY': cell.rsplit('_', 1)[0], 'Fc': 'HXXFC', 'La': '1'}
+        s1, s2 = 'CATG' + rand_seq(rng, 36), rand_seq(rng, 40)
+        recs.append({'n': name, 'f': PAIRED | PROPER | MREV | R1, 't': ci, 'p': p1, 'q': 60, 'c': '40M', 's': s1, 'ql': 'J' * 40,
+                     'nt': ci, 'np': p1 + gap, 'tags': dict(tg), 'kind': 'pair'})
+        recs.append({'n': name, 'f': PAIRED | PROPER | REV | R2, 't': ci, 'p': p1 + gap, 'q': 60, 'c': '40M', 's': s2, 'ql': 'F' * 40,
+                     'nt': ci, 'np': p1, 'tags': dict(tg), 'kind': 'pair'})
+    for k in range(nsites):
+        site = 1000 + k * step
+        pair('NS500:1:HXXFC:1:1101:%d:1' % k, 0, site, 60, 'LIBA_1', 'ACG')
+        pair('NS500:1:HXXFC:1:1101:%d:2' % k, 0, site, lg, 'LIBA_1', 'TTA')
+    for i in range(4):
+        pair('NS500:1:HXXFC:1:1102:%d:3' % i, 1, 500 + 9000 * i, 60, 'LIBA_2', 'GGC')
+    recs.append({'n': 'NS500:1:HXXFC:1:1103:1:1', 'f': UNMAP, 't': -1, 'p': -1, 'q': 0, 'c': '', 's': 'CATGGTTTACCAGGAT', 'ql': 'A' * 16,
+                 'nt': -1, 'np': -1, 'tags': {'SM': 'LIBA_1', 'BC': 'ACGTACGT', 'RX': 'AAA', 'MI': 'ACGTACGTAAA', 'LY': 'LIBA',
+                                             'Fc': 'HXXFC', 'La': '1'}, 'kind': 'unmapped_single'})
+    recs.sort(key=lambda r: (r['t'] if r['t'] >= 0 else 10 ** 9, r['p']))
+    for i, r in enumerate(recs):
+        r['tags']['zi'] = i
+    return {'contigs': contigs, 'records': recs, 'name_form': 'tags', 'large': True, 'nomodel': True}
+
+
+def run_args(method, mode, threads=None, no_rejects=False, fmt=0):
     a = ['-method', method]
+    if fmt:
+        a += ['-read_group_format', str(fmt)]
     if mode == 'multi':
         a += ['--multiprocess']
         if threads:
@@ -348,6 +396,11 @@ class Prop(fw.PropBase):
         'Fragment.is_valid is an uninterpreted function; in the end-to-end check "invalid" = flagged QC-fail by the '
         'default run of the same library',
         'third-party pysamiterators 0.1.x source (not part of /repo) is modelled from the installed copy',
+        'the model assumes an index that matches the file (verify_and_fix_bam is outside the model); stale-index histories '
+        '(file regenerated in place, older .bai left behind), re-tagging histories (output tagged again with another '
+        '-read_group_format / method / mode) and one library with > 10,000 pooled fragments (periodic ejection of '
+        'MoleculeIterator inside the tagger; no command line option lowers check_eject_every) are sampled end to end against '
+        'the specification; the large library is not run through the model',
     ]
     ASSUMPTIONS = [
         'no two primary records of the input share (query name, first-read bit) (MatePairIterator is run with '
@@ -392,13 +445,31 @@ class Prop(fw.PropBase):
         for i in range(6 if quick else 40):
             cases.append(gen_malformed(self.rng))
         cases += lane_cases(self.rng, 4 if quick else 30)
+        # input records that already carry RG tags (aligner-style ids, ids of another read_group_format, or the ids the
+        # tagger would assign), with or without @RG lines in the input header
+        for c in cases:
+            if c.get('name_form') == 'tags' and self.rng.random() < 0.45:
+                mode = self.rng.choice(['foreign', 'format1', 'same'])
+                for r in c['records']:
+                    r['tags']['RG'] = {'foreign': 'run%s' % r['tags']['SM'][-1], 'format1': rec_rg(r, 1), 'same': rec_rg(r, 0)}[mode]
+                c['rg_mode'] = mode
+                if self.rng.random() < 0.7:
+                    c['rg_header'] = sorted(set(r['tags']['RG'] for r in c['records']))
+        # histories on one input path: the file was regenerated in place, the index of the earlier version stayed behind
+        for c in cases:
+            if not c.get('malformed') and self.rng.random() < 0.25:
+                drop_t = self.rng.choice(sorted(set(r['t'] for r in c['records'])))
+                names = sorted(set(r['n'] for r in c['records']))
+                gone = set(n for n in names if self.rng.random() < 0.3)
+                v1 = [r for r in c['records'] if r['t'] != drop_t and r['n'] not in gone]
+                c['stale'] = {'records': v1}
         lay = layout_cases(2 if quick else 4)
         self.n_layout = len(lay)
         for c in lay:
             c['run_specs'] = [{'method': 'nla', 'mode': 'single', 'nr': False},
                               {'method': 'nla', 'mode': 'multi', 'threads': 2, 'nr': False},
                               {'method': 'qflag', 'mode': 'multi', 'threads': 3, 'nr': False}]
-            c['runs'] = [run_args(r['method'], r['mode'], r.get('threads'), r['nr']) for r in c['run_specs']]
+            c['runs'] = [spec_args(r) for r in c['run_specs']]
         for c in cases:
             if 'run_specs' in c:
                 continue
@@ -410,9 +481,30 @@ class Prop(fw.PropBase):
                 runs.append({'method': m, 'mode': 'single', 'nr': True})
                 if not quick or self.rng.random() < 0.5:
                     runs.append({'method': m, 'mode': 'multi', 'threads': self.rng.randint(1, 4), 'nr': True})
+            # some runs with the other read group scheme
+            for r in runs:
+                if not r['nr'] and self.rng.random() < 0.2:
+                    r['fmt'] = 1
             c['run_specs'] = runs
-            c['runs'] = [run_args(r['method'], r['mode'], r.get('threads'), r['nr']) for r in runs]
-        return cases + lay
+            c['runs'] = [spec_args(r) for r in runs]
+            # re-tagging histories: the output of an earlier run is tagged again with another scheme / method / mode
+            if not c.get('malformed') and self.rng.random() < 0.3:
+                c['retag_specs'] = []
+                for _ in range(2):
+                    j = self.rng.choice([i for i, r in enumerate(runs) if not r['nr'] and r['method'] != 'qflag'])
+                    sp = {'method': self.rng.choice(['nla', 'chic']), 'mode': self.rng.choice(['single', 'multi']),
+                          'threads': self.rng.randint(1, 3), 'nr': False, 'fmt': 1 - runs[j].get('fmt', 0)}
+                    c['retag_specs'].append([j, sp])
+                c['retag'] = [[j, spec_args(sp)] for j, sp in c['retag_specs']]
+        big = []
+        for k in range(1 if quick else 2):
+            c = large_case(self.rng, 5200)
+            c['run_specs'] = ([{'method': 'nla', 'mode': 'single', 'nr': False}, {'method': 'chic', 'mode': 'multi', 'threads': 2, 'nr': False}]
+                              if quick else
+                              [{'method': m, 'mode': mo, 'threads': 2, 'nr': False} for m in ('nla', 'chic') for mo in ('single', 'multi')])
+            c['runs'] = [spec_args(r) for r in c['run_specs']]
+            big.append(c)
+        return cases + lay + big
 
     def corpus_cases(self):
         d = os.path.join(fw.VERIF, 'corpus', 'C05')
@@ -431,16 +523,39 @@ class Prop(fw.PropBase):
     def run_impl_cases(self, cases, workers=6):
         if not cases:
             return []
-        chunks = [(i, cases[i:i + 6]) for i in range(0, len(cases), 6)]
+        chunks, cur = [], []
+        for i, c in enumerate(cases):      # large libraries get a process of their own
+            if c.get('large'):
+                chunks.append((i, [c]))
+                continue
+            if not cur or len(cur[1]) >= 6 or cur[0] + len(cur[1]) != i:
+                cur = (i, [])
+                chunks.append(cur)
+            cur[1].append(c)
+        chunks.sort(key=lambda ch: -sum(len(c['records']) for c in ch[1]))
 
         def go(ch):
             off, cs = ch
-            slim = [{'contigs': c['contigs'], 'runs': c['runs'],
-                     'records': [{k: v for k, v in r.items() if k != 'kind'} for r in c['records']]} for c in cs]
+            def sr(recs):
+                return [{k: v for k, v in r.items() if k in ('n', 'f', 't', 'p', 'q', 'c', 's', 'ql', 'nt', 'np', 'tags')} for r in recs]
+            slim = []
+            for c in cs:
+                d = {'contigs': c['contigs'], 'runs': c['runs'], 'records': sr(c['records'])}
+                if c.get('rg_header'):
+                    d['rg_header'] = c['rg_header']
+                if c.get('stale'):
+                    d['stale'] = {'records': sr(c['stale']['records'])}
+                if c.get('retag'):
+                    d['retag'] = c['retag']
+                slim.append(d)
             return fw.run_impl('impl_c05.py', {'cases': slim, 'offset': off}, timeout=1500)['cases']
         with ThreadPoolExecutor(max_workers=workers) as ex:
             parts = list(ex.map(go, chunks))
-        return [r for p in parts for r in p]
+        out = [None] * len(cases)
+        for (off, cs), p in zip(chunks, parts):
+            for k, r in enumerate(p):
+                out[off + k] = r
+        return out
 
     # ------------------------------------------------------------------ model encoding
     @staticmethod
@@ -464,7 +579,7 @@ class Prop(fw.PropBase):
         recs = []
         for r in case['records']:
             f = r['f']
-            rg = rgs.setdefault(r.get('xrg') or expected_rg(r['tags']), len(rgs))
+            rg = rgs.setdefault(rec_rg(r, spec.get('fmt', 0)), len(rgs))
             recs.append([r['tags']['zi'], names.setdefault(r['n'], len(names)), [] if r['t'] < 0 else [r['t']], r['p'],
                          [] if r['nt'] < 0 else [r['nt']], 1 if f & PAIRED else 0, 1 if f & R1 else 0, 1 if f & R2 else 0,
                          1 if f & MUNMAP else 0, 1 if f & (SEC | SUPP) else 0, 1 if f & QCFAIL else 0, rg,
@@ -473,7 +588,8 @@ class Prop(fw.PropBase):
         qf = spec['method'] == 'qflag'
         cfg = [1 if spec['mode'] == 'multi' else 0, 1 if qf else 0, 1 if (qf or not spec['nr']) else 0, 1, 1 if qf else 0, []]
         hdr = [[i, l] for i, (n, l) in enumerate(case['contigs'])]
-        return [cfg, hdr, recs], {v: k for k, v in rgs.items()}
+        in_rgs = [rgs.setdefault(g, len(rgs)) for g in case.get('rg_header', [])]
+        return [cfg, hdr, recs, in_rgs], {v: k for k, v in rgs.items()}
 
     # ------------------------------------------------------------------ specification on the implementation's output
     def spec_violations(self, case, spec, res, valid_ids):
@@ -525,6 +641,19 @@ class Prop(fw.PropBase):
         return out
 
     @staticmethod
+    def pseudo_case(case, res):
+        """the output of an earlier tagger run, read back, as the input library of the next run of a history"""
+        recs = []
+        for o in res['records']:
+            tg = dict(o.get('tg', {}))
+            tg['zi'] = o['id']
+            if o.get('rg') is not None:
+                tg['RG'] = o['rg']
+            recs.append({'n': o['n'], 'f': o['f'], 't': o['t'], 'p': o['p'], 'q': o.get('q', 0), 'c': o['c'], 's': o['s'], 'ql': o['ql'],
+                         'nt': o.get('nt', -1), 'np': -1, 'tags': tg, 'kind': 'retag'})
+        return {'contigs': case['contigs'], 'records': recs, 'rg_header': list(res['rg_ids']), 'name_form': 'tags', 'retagged': True}
+
+    @staticmethod
     def jobs_spec(cl, jobs):
         """C05_jobs_cover on the implementation's job list: '*' and every listed contig exactly once"""
         flat = [c for j in jobs for c in j]
@@ -552,7 +681,7 @@ class Prop(fw.PropBase):
         for c in ce2e:
             if 'runs' not in c:
                 c['run_specs'] = [{'method': m, 'mode': mo, 'threads': 2, 'nr': False} for m in METHODS for mo in ('single', 'multi')]
-                c['runs'] = [run_args(r['method'], r['mode'], r.get('threads'), r['nr']) for r in c['run_specs']]
+                c['runs'] = [spec_args(r) for r in c['run_specs']]
         slices = csl + self.slice_cases()
         cases = ce2e + self.e2e_cases()
         self.slices, self.cases = slices, cases
@@ -578,7 +707,7 @@ class Prop(fw.PropBase):
                     dis.append({'level': 'slice', 'input': cl, 'impl': o['jobs'], 'model': self.dec_jobs(m, inv)})
         # ---- end to end
         spec_bad = []
-        n_runs = 0
+        n_runs = n_retag = 0
         hist_kind, hist_contigs, hist_layout = collections.Counter(), collections.Counter(), collections.Counter()
         minputs, mmeta = [], []
         nontrivial = set()
@@ -592,7 +721,7 @@ class Prop(fw.PropBase):
                 dis.append({'level': 'e2e', 'case': ci, 'impl_error': r['fatal']})
                 continue
             # htslib must have stored what we generated (sanity of the harness, not of the tagger)
-            if collections.Counter(raw_payload(x) for x in r['input']['records']) != collections.Counter(raw_payload(x) for x in c['records']):
+            if 'records' in r['input'] and collections.Counter(raw_payload(x) for x in r['input']['records']) != collections.Counter(raw_payload(x) for x in c['records']):
                 raise RuntimeError('harness: the synthetic BAM does not read back as generated (case %d)' % ci)
             valid = {}
             for spec, rr in zip(c['run_specs'], r['runs']):
@@ -606,9 +735,26 @@ class Prop(fw.PropBase):
                 if not c.get('malformed'):
                     for k, t in self.spec_violations(c, spec, rr, vids):
                         spec_bad.append({'key': k, 'what': t, 'case': ci, 'run': si})
+                if c.get('nomodel'):
+                    continue       # large library: the specification on the output only
                 minp, rginv = self.enc_case(c, spec, vids)
                 minputs.append(minp)
-                mmeta.append((ci, si, rginv))
+                mmeta.append((ci, spec, rr, rginv, c))
+            # histories: stage 2 of a re-tagging takes the read-back output of stage 1 as its input
+            for (j, sp2), rr2 in zip(c.get('retag_specs', []), r.get('retag', [])):
+                r1 = r['runs'][j]
+                if 'error' in r1:
+                    continue
+                n_runs += 1
+                n_retag += 1
+                pc = self.pseudo_case(c, r1)
+                sp2 = dict(sp2, history='output of %r tagged again' % (c['runs'][j],))
+                for k, t in self.spec_violations(pc, sp2, rr2, None):
+                    spec_bad.append({'key': k, 'what': 'history [%s, then %s]: %s' % (' '.join(c['runs'][j]), ' '.join(spec_args(sp2)), t),
+                                     'case': ci, 'retag': [j, sp2]})
+                minp, rginv = self.enc_case(pc, sp2, None)
+                minputs.append(minp)
+                mmeta.append((ci, sp2, rr2, rginv, pc))
             if len(set(t for t, _ in [(x['t'], 0) for x in c['records']])) > 1 and len(c['records']) >= 4:
                 nontrivial.add(fw.canon_hash([c['contigs'], [[x['n'], x['f'], x['t'], x['p']] for x in c['records']]]))
         self.spec_bad = spec_bad
@@ -617,8 +763,7 @@ class Prop(fw.PropBase):
             mout = fw.run_model('C05', 0, minputs)
             pre = fw.run_model('C05', 1, minputs)
             pre_hits = sum(1 for p in pre if p == 1) / len(pre)
-            for (ci, si, rginv), mi, mo, p in zip(mmeta, minputs, mout, pre):
-                c, spec, rr = cases[ci], cases[ci]['run_specs'][si], cres[ci]['runs'][si]
+            for (ci, spec, rr, rginv, c), mi, mo, p in zip(mmeta, minputs, mout, pre):
                 n_traces += 1
                 if c.get('malformed') and p == 1:
                     pass
@@ -657,8 +802,14 @@ class Prop(fw.PropBase):
             'malformed_libraries': sum(1 for c in cases if c.get('malformed')),
             'query_name_encoded_libraries': sum(1 for c in cases if c.get('name_form') == 'qname'),
             'multi_lane_molecule_libraries': sum(1 for c in cases if c.get('lanes')),
+            'libraries_with_input_RG_tags': dict(collections.Counter(c['rg_mode'] for c in cases if c.get('rg_mode'))),
+            'libraries_with_input_RG_header': sum(1 for c in cases if c.get('rg_header')),
+            'stale_index_histories': sum(1 for c in cases if c.get('stale')),
+            'retag_histories': n_retag,
+            'runs_with_read_group_format_1': sum(1 for c in cases for sp in c['run_specs'] if sp.get('fmt')),
+            'large_libraries': [{'records': len(c['records']), 'runs': len(c['runs'])} for c in cases if c.get('large')],
             'read_groups_per_library_hist': dict(sorted(collections.Counter(
-                len(set(x.get('xrg') or expected_rg(x['tags']) for x in c['records'])) for c in cases).items())),
+                len(set(rec_rg(x) for x in c['records'])) for c in cases if not c.get('large')).items())),
             'precondition_hit_rate': None if pre_hits is None else round(pre_hits, 4),
             'traces_validated_against_impl': n_traces,
             'spec_violations_on_impl': len(spec_bad), 'disagreements': len(dis),
@@ -726,7 +877,7 @@ class Prop(fw.PropBase):
             c2 = dict(c)
             runs = [{'method': spec['method'], 'mode': 'single', 'nr': False}] + ([spec] if (spec['nr'] or spec['mode'] != 'single') else [])
             c2['run_specs'] = runs
-            c2['runs'] = [run_args(r['method'], r['mode'], r.get('threads'), r['nr']) for r in runs]
+            c2['runs'] = [spec_args(r) for r in runs]
             r = self.run_impl_cases([c2], workers=1)[0]
             if 'fatal' in r:
                 return None
@@ -735,11 +886,11 @@ class Prop(fw.PropBase):
                 return None
             v = [x for x in self.spec_violations(c2, spec, r['runs'][-1], vids) if x[0] == key]
             return (v[0], r['runs'][-1]) if v else None
-        cur = {'contigs': case['contigs'], 'records': case['records']}
+        cur = {k: case[k] for k in ('contigs', 'records', 'rg_header', 'stale') if k in case}
         best = run(cur)
         if not best:
             return cur, None
-        budget = 60
+        budget = 0 if len(case['records']) > 2000 else 60
         changed = True
         while changed and budget > 0:
             changed = False
@@ -752,14 +903,14 @@ class Prop(fw.PropBase):
                     break
                 budget -= 1
                 recs = [json.loads(json.dumps(r)) for r in cur['records'] if r['n'] != n]
-                t = {'contigs': cur['contigs'], 'records': recs}
+                t = dict(cur, records=recs)
                 w = run(t)
                 if w:
                     cur, best, changed = t, w, True
                     break
         # drop contigs that carry no record (one at a time; indices of the others shift)
         changed = True
-        while changed and budget > 0 and len(cur['contigs']) > 1:
+        while changed and budget > 0 and len(cur['contigs']) > 1 and 'stale' not in cur:
             changed = False
             used = set(r['t'] for r in cur['records']) | set(r['nt'] for r in cur['records'])
             for i in range(len(cur['contigs'])):
@@ -771,7 +922,7 @@ class Prop(fw.PropBase):
                     for k in ('t', 'nt'):
                         if r[k] > i:
                             r[k] -= 1
-                t = {'contigs': cur['contigs'][:i] + cur['contigs'][i + 1:], 'records': recs}
+                t = dict(cur, contigs=cur['contigs'][:i] + cur['contigs'][i + 1:], records=recs)
                 w = run(t)
                 if w:
                     cur, best, changed = t, w, True
@@ -811,8 +962,15 @@ class Prop(fw.PropBase):
             if b['key'] in seen or len(seen) >= 4:
                 continue
             seen.add(b['key'])
-            c, spec = self.cases[b['case']], self.cases[b['case']]['run_specs'][b['run']]
-            what, small, impl = b['what'], {'contigs': c['contigs'], 'records': c['records']}, None
+            c = self.cases[b['case']]
+            if 'retag' in b:      # a history of two tagger runs: reported with the whole library
+                j, sp2 = b['retag']
+                self.witnesses.append({'key': b['key'], 'what': b['what'], 'history': [c['runs'][j], spec_args(sp2)], 'run2': sp2,
+                                       'input': {k: c[k] for k in ('contigs', 'records', 'rg_header', 'stale') if k in c},
+                                       'expected': 'every record of the first output exactly once in the second, RG declared'})
+                continue
+            spec = c['run_specs'][b['run']]
+            what, small, impl = b['what'], {k: c[k] for k in ('contigs', 'records', 'rg_header', 'stale') if k in c}, None
             try:
                 small, best = self.shrink_case(c, spec, b['key'])
                 if best:
@@ -820,9 +978,10 @@ class Prop(fw.PropBase):
             except Exception as e:
                 self.notes.append('shrinking failed: %r' % (e,))
             self.witnesses.append({'key': b['key'], 'what': what, 'run': spec,
-                                   'args': run_args(spec['method'], spec['mode'], spec.get('threads'), spec['nr']),
-                                   'input': {'contigs': small['contigs'],
-                                             'records': [{k: v for k, v in r.items()} for r in small['records']]},
+                                   'args': spec_args(spec),
+                                   'input': small,
+                                   'history': ('the input file was regenerated in place; the index of its earlier version (records '
+                                               'input.stale) is still next to it, older than the BAM') if 'stale' in small else None,
                                    'impl': impl,
                                    'expected': 'every primary input record exactly once, unchanged; sorted, indexed, RG declared'})
 
@@ -837,11 +996,19 @@ class Prop(fw.PropBase):
                 print('VIOLATES' if k else 'ok', k or '')
                 return 1 if k else 0
             return 1
+        if w.get('input') and w.get('history') and w.get('run2'):
+            c, sp2 = w['input'], w['run2']
+            c['run_specs'], c['runs'] = [], [w['history'][0]]
+            c['retag'] = [[0, w['history'][1]]]
+            r = self.run_impl_cases([c], workers=1)[0]
+            v = self.spec_violations(self.pseudo_case(c, r['runs'][0]), sp2, r['retag'][0], None)
+            print('VIOLATES' if v else 'ok', v)
+            return 1 if v else 0
         if w.get('input') and w.get('run'):
             c, spec = w['input'], w['run']
             runs = [{'method': spec['method'], 'mode': 'single', 'nr': False}, spec]
             c['run_specs'] = runs
-            c['runs'] = [run_args(r['method'], r['mode'], r.get('threads'), r['nr']) for r in runs]
+            c['runs'] = [spec_args(r) for r in runs]
             r = self.run_impl_cases([c], workers=1)[0]
             vids = self.valid_from_default(r['runs'][0]) if spec['nr'] else None
             v = self.spec_violations(c, spec, r['runs'][1], vids)
